@@ -784,6 +784,81 @@ func followUps(r *rand.Rand, s *Session, p []string, unlisted []string) int {
 	return exchanges
 }
 
+// bigSafeFail are failure strings that cannot occur by accident in filler text (each has a byte
+// outside fillAlpha) and have no leading/trailing space.
+var bigSafeFail = []string{"% Invalid input", "Error:", "ERROR", "% Bad", "Rejected.", "% Incomplete command", "% Ambiguous command", "Failed", "NACK"}
+
+// bigClasses: where the single occurrence of a failure string in force sits in a result of L bytes
+// (w = 16384): in the middle; straddling byte w / byte L-w; adjacent to those bytes on the far
+// side; anywhere between; controls inside the first / last w bytes, a result below 32 KiB, none.
+var bigClasses = []string{"middle", "middle", "straddle-w", "straddle-L-w", "from-w", "up-to-L-w", "between", "between",
+	"control-head", "control-tail", "small-middle", "none"}
+
+type bigSpec struct {
+	class string
+	size  int
+	api   string
+	stop  bool
+}
+
+// bigCmd replaces command bi of the operation by one with a big output (same text).
+func bigCmd(r *rand.Rand, s *Session, o *Op, bi int, b bigSpec) Cmd {
+	inForce := InForce(s, o)
+	const w = 16384
+	for attempt := 0; attempt < 20; attempt++ {
+		buf := make([]byte, 0, b.size+100)
+		for len(buf) < b.size {
+			l := []byte(randStr(r, fillAlpha, 20+r.Intn(60)))
+			if l[len(l)-1] == ' ' {
+				l[len(l)-1] = 'x'
+			}
+			buf = append(buf, l...)
+			buf = append(buf, '\n')
+		}
+		buf = buf[:len(buf)-1] // the result has no trailing newline
+		L := len(buf)
+		mark := "n:big/none"
+		if b.class != "none" {
+			f := inForce[r.Intn(len(inForce))]
+			m := len(f)
+			t := 0
+			switch b.class {
+			case "middle", "small-middle":
+				t = L/2 - m/2
+			case "straddle-w":
+				t = w - 1 - r.Intn(m-1)
+			case "straddle-L-w":
+				t = L - w - 1 - r.Intn(m-1)
+			case "from-w":
+				t = w
+			case "up-to-L-w":
+				t = L - w - m
+			case "between":
+				t = w + r.Intn(L-2*w-m)
+			case "control-head":
+				t = r.Intn(w - m)
+			case "control-tail":
+				t = L - w + r.Intn(w-m)
+			}
+			copy(buf[t:], f)
+			mark = fmt.Sprintf("h:big/%s/%d@%d", b.class, L, t)
+		}
+		text := string(buf)
+		c := Cmd{Text: o.Cmds[bi].Text, Mark: mark}
+		c.Out = []devsim.Token{devsim.T(strings.ReplaceAll(text, "\n", s.NL) + s.NL)}
+		ref := devsim.RenderRef(c.Out, s.NL, s.Prompts[ModeOf(o.API)], true)
+		cnt := 0
+		for _, f := range inForce {
+			cnt += strings.Count(ref, f)
+		}
+		if ref != text || (b.class == "none") != (cnt == 0) || cnt > 1 || prefixLooksLikePrompt(promptRe(s.Driver), text) {
+			continue // e.g. a line ended in a space after the overwrite; draw again
+		}
+		return c
+	}
+	return o.Cmds[bi]
+}
+
 func fileBytes(o *Op) int {
 	n := 0
 	for _, c := range o.Cmds {
@@ -1130,6 +1205,66 @@ func Gen(tier string, seed int64) []mon.Case {
 			}
 		}
 		s.Ops = append(s.Ops, buildOp(r, &s, o, string(pat), listed, unlisted))
+		add(s)
+	}
+	// big outputs (33 KiB - 1 MiB) with the failure string at chosen offsets of the result
+	bigRounds := 1
+	if tier == "thorough" {
+		bigRounds = 4
+	}
+	var bigs []bigSpec
+	for k := 0; k < bigRounds; k++ {
+		for ci, class := range bigClasses {
+			size := 33*1024 + 256 + r.Intn(170*1024)
+			switch {
+			case class == "small-middle":
+				size = 30*1024 + r.Intn(2700)
+			case ci%5 == 0:
+				size = 33*1024 + r.Intn(600) // just over 32 KiB
+			case ci == 1 || ci == 6:
+				size = 1 << 20
+			}
+			for _, api := range []string{"each", "multi"} {
+				bigs = append(bigs, bigSpec{class, size, api, (ci+k)%2 == 0})
+			}
+		}
+	}
+	r.Shuffle(len(bigs), func(i, j int) { bigs[i], bigs[j] = bigs[j], bigs[i] })
+	for start := 0; start < len(bigs); start += 2 {
+		driver := []string{"generic", "network"}[(start/2)%2]
+		s := newSession(r, "bigout", driver)
+		s.Seg = devsim.Seg{Mode: []string{"whole", "fixed"}[r.Intn(2)], Size: 4096, Seed: r.Int63()}
+		s.ReadSize, s.ReadDelay = []int{4096, 8192}[r.Intn(2)], 50
+		safe := permute(r, bigSafeFail...)
+		s.DLKind, s.DLGiven, s.DL = "random", true, safe[:1+r.Intn(2)]
+		apis := apisFor(driver)
+		end := start + 2
+		if end > len(bigs) {
+			end = len(bigs)
+		}
+		for _, b := range bigs[start:end] {
+			o := Op{API: "each", Stop: b.stop, OL: []string{}, OLKind: "random"}
+			if b.api == "multi" {
+				o.API = apis[1+r.Intn(len(apis)-1)]
+			}
+			if r.Intn(3) == 0 {
+				o.OLGiven, o.OL = true, safe[3:4+r.Intn(2)]
+			}
+			n := 2 + r.Intn(3)
+			bi := r.Intn(n - 1) // never the last: stop-on-failed must have something to withhold
+			pat := make([]byte, n)
+			for j := range pat {
+				pat[j] = "nnhd"[r.Intn(4)]
+			}
+			pat[bi] = 'n'
+			built := buildOp(r, &s, o, string(pat), safe[:6], safe[6:])
+			built.Strip = true
+			built.Opts = canonicalOpts(&built)
+			if !strings.HasSuffix(built.API, "file") || len(built.Cmds[bi].Text) <= 4096 {
+				built.Cmds[bi] = bigCmd(r, &s, &built, bi, b)
+			}
+			s.Ops = append(s.Ops, built)
+		}
 		add(s)
 	}
 	// long pushes (more than 100 lines) with the first rejected line at and around multiples of 100
